@@ -71,6 +71,26 @@ func famC04() []appFamily {
 			h.nftHop(o, 1, 1, vclass("NFT", "kitty", A, B), "tom", 0, h.addr(0, 3), "") // returns to another user
 			h.nftHop(o, 1, 2, vclass("NFT", "doggo", A, B), "tom", 0, h.addr(0, 2), "")
 		}},
+		{"non-owners-try-every-direction", func(h *AppH, o *tokOracle) {
+			// whoever is not the holder must not be able to move a token: towards another chain,
+			// back towards the origin (voucher burn), or onwards; a send that is wrongly accepted is
+			// relayed like any other, so that the holder-count oracle sees the consequence
+			A, B, C := h.names[0], h.names[1], h.names[2]
+			mintNative(h, o, 0, 1, "kitty", "tom")
+			h.nftHop(o, 0, 2, "kitty", "tom", 1, h.addr(1, 2), "") // user 2 of A does not own it
+			h.nftHop(o, 0, 1, "kitty", "tom", 1, h.addr(1, 2), "") // owner: A -> B, voucher held by user 2 of B
+			v := vclass("NFT", "kitty", A, B)
+			h.nftHop(o, 1, 1, v, "tom", 0, h.addr(0, 2), "") // user 1 of B: back towards the origin, to an accomplice on A
+			h.nftHop(o, 1, 3, v, "tom", 0, h.addr(0, 3), "") // user 3 of B: the same
+			h.nftHop(o, 1, 1, v, "tom", 2, h.addr(2, 1), "") // user 1 of B: onwards to C
+			h.nftHop(o, 0, 1, "kitty", "tom", 1, h.addr(1, 1), "") // the former owner on A: it is in escrow now
+			h.nftHop(o, 1, 2, v, "tom", 2, h.addr(2, 2), "")       // holder: B -> C
+			v2 := vclass("NFT", "kitty", A, B, C)
+			h.nftHop(o, 1, 2, v, "tom", 0, h.addr(0, 2), "")  // former holder on B: gone
+			h.nftHop(o, 2, 1, v2, "tom", 1, h.addr(1, 1), "") // user 1 of C is not the holder
+			h.nftHop(o, 2, 2, v2, "tom", 1, h.addr(1, 2), "") // holder: C -> B
+			h.nftHop(o, 1, 2, v, "tom", 0, h.addr(0, 1), "")  // holder: B -> A, home
+		}},
 		{"relayed-tour-and-return", func(h *AppH, o *tokOracle) {
 			A, B, C := h.names[0], h.names[1], h.names[2]
 			h.SetRules(1, []string{"*,*,*"})
@@ -129,6 +149,28 @@ func famC05() []appFamily {
 			h.mtHop(o, 1, 1, v, id, 1<<63-5, 0, h.addr(0, 2), "")   // overflow on the receiver side? (7 + 2^63-5 fits)
 			h.MtBurn(0, 2, cls, id, 3)
 			o.mtMinted["0|"+cls+"|"+id] -= 3
+		}},
+		{"non-holders-and-overdrafts-every-direction", func(h *AppH, o *tokOracle) {
+			A, B, C := h.names[0], h.names[1], h.names[2]
+			cls, _ := h.MtIssue(0, 1)
+			id, _ := h.MtMintNew(0, 1, cls, 1000, 1)
+			o.mtMinted["0|"+cls+"|"+id] = 1000
+			h.mtHop(o, 0, 2, cls, id, 10, 1, h.addr(1, 2), "")   // user 2 of A holds nothing
+			h.mtHop(o, 0, 1, cls, id, 1001, 1, h.addr(1, 2), "") // more than held
+			h.mtHop(o, 0, 1, cls, id, 600, 1, h.addr(1, 2), "")
+			v := vclass("MT", cls, A, B)
+			h.mtHop(o, 1, 1, v, id, 5, 0, h.addr(0, 2), "")   // user 1 of B holds no vouchers: back towards the origin
+			h.mtHop(o, 1, 2, v, id, 601, 0, h.addr(0, 2), "") // holder, one unit more than held, back
+			h.mtHop(o, 1, 3, v, id, 1, 2, h.addr(2, 1), "")   // non-holder, onwards
+			h.mtHop(o, 1, 2, v, id, 601, 2, h.addr(2, 1), "") // holder, more than held, onwards
+			h.mtHop(o, 1, 2, v, id, 200, 2, h.addr(2, 1), "") // holder: B -> C
+			v2 := vclass("MT", cls, A, B, C)
+			h.mtHop(o, 2, 2, v2, id, 1, 1, h.addr(1, 1), "")   // non-holder on C, back
+			h.mtHop(o, 2, 1, v2, id, 201, 1, h.addr(1, 1), "") // holder, more than held
+			h.mtHop(o, 2, 1, v2, id, 200, 1, h.addr(1, 3), "") // holder: everything back to B (another user)
+			h.mtHop(o, 1, 3, v, id, 200, 0, h.addr(0, 3), "")
+			h.mtHop(o, 1, 2, v, id, 400, 0, h.addr(0, 1), "")
+			h.mtHop(o, 1, 2, v, id, 1, 0, h.addr(0, 1), "") // nothing left on B
 		}},
 		{"second-id-and-relay", func(h *AppH, o *tokOracle) {
 			A, B, C := h.names[0], h.names[1], h.names[2]
